@@ -863,7 +863,7 @@ pub fn gen(rng: &mut Rng, n: usize, thorough: bool, stats: &mut Stats) -> Vec<St
 		match rng.below(20) {
 			// round trip only: every format, channel counts 1..6 and a few large ones, extreme values
 			0..=6 => {
-				let w = gen_wav(rng, stats, &[1, 1, 2, 2, 1, 2, 3, 4, 6, 26], false, 3000);
+				let w = gen_wav(rng, stats, &[1, 1, 2, 2, 1, 2, 1, 2, 3, 4, 6, 26, 1, 2, 27, 32, 0, 1, 2, 2], false, 3000);
 				lines.push(w.line);
 			}
 			// streaming with seeks
